@@ -604,6 +604,11 @@ class LoopTr(FnTr):
         if isinstance(e, ast.Name) and env.get(e.id) in ('Pairs', 'NIS', 'Stack', 'Vals'):
             return '(!%s.isEmpty)' % mangle(e.id)
         if isinstance(e, ast.Compare) and len(e.ops) == 1 and isinstance(e.left, ast.Name) \
+                and isinstance(e.ops[0], (ast.Is, ast.IsNot)) and isinstance(e.comparators[0], ast.Constant) \
+                and e.comparators[0].value is None and env.get(e.left.id) == 'K':
+            t = '(decide (%s = %s))' % (mangle(e.left.id), L['none_key'])      # `key is None`
+            return t if isinstance(e.ops[0], ast.Is) else '(!%s)' % t
+        if isinstance(e, ast.Compare) and len(e.ops) == 1 and isinstance(e.left, ast.Name) \
                 and isinstance(e.comparators[0], ast.Name):
             a, b, op = e.left.id, e.comparators[0].id, e.ops[0]
             if isinstance(op, (ast.Is, ast.IsNot)) and [a, b] in [list(x[:2]) for x in L['identity_flags']]:
@@ -822,7 +827,7 @@ class LoopTr(FnTr):
         pats = ''.join(', ' + mangle(v) for v in state)
         text = ('/-- `while %s:` (line %d of the function): one `fuel` per iteration; the entry popped decides between the\n'
                 '    two readings of the body (`%s is %s`) -/\n'
-                'def %s [DecidableEq V]%s : Nat →%s Option V → σ → R σ %s\n'
+                'def %s [DecidableEq V] [DecidableEq K]%s : Nat →%s Option V → σ → R σ %s\n'
                 '  | 0%s, _, _ => .error Exc.OutOfFuel\n'
                 '  | fuel + 1%s, %s, s =>\n'
                 '    match %s with\n'
@@ -863,6 +868,6 @@ class LoopTr(FnTr):
         params = ''.join(' (%s : %s)' % (mangle(p), LEAN_TY[t]) for p, t in self.spec['params'].items())
         head = ('/-- the main loop of `%s` (from the initialisation of `%s` to `return`): callbacks, flags and the `None` key are\n'
                 '    parameters; the value returned and the object store, or the exception class -/\n'
-                'def %s [DecidableEq V] (fuel : Nat) (s : σ)%s : R σ (%s) :=\n%s\n' % (
+                'def %s [DecidableEq V] [DecidableEq K] (fuel : Nat) (s : σ)%s : R σ (%s) :=\n%s\n' % (
                     self.spec['qualname'], L['stack'], self.name, params, LEAN_TY[self.ret], ind(term, 2)))
         return '\n'.join(list(self.loops) + [head])
